@@ -1,4 +1,206 @@
-use crate::{ctx::CaseOut, Params};
-pub fn case(_idx: u64, _seed: u64, _p: &Params, o: &mut CaseOut) {
-    o.skipped = true;
+//! C19 — PredecessorTree search follows predecessor links exactly and always
+//! terminates.
+
+use crate::ctx::CaseOut;
+use crate::rng::{Fp, Rng};
+use crate::Params;
+use graaf::*;
+use std::cell::Cell;
+
+/// (n+1)^n vectors of length n, n = 1..=max
+pub fn count_upto(max: usize) -> u64 {
+    (1..=max).map(|n| ((n + 1) as u64).pow(n as u32)).sum()
+}
+
+fn decode(mut idx: u64) -> Vec<Option<usize>> {
+    let mut n = 1usize;
+    loop {
+        let c = ((n + 1) as u64).pow(n as u32);
+        if idx < c {
+            break;
+        }
+        idx -= c;
+        n += 1;
+    }
+    let mut v = Vec::with_capacity(n);
+    for _ in 0..n {
+        let d = (idx % (n as u64 + 1)) as usize;
+        idx /= n as u64 + 1;
+        v.push(if d == 0 { None } else { Some(d - 1) });
+    }
+    v
+}
+
+/// The functional-graph walk: first vertex on the chain from s satisfying the
+/// predicate before the chain ends or revisits a vertex.
+fn reference(pred: &[Option<usize>], s: usize, f: &dyn Fn(usize, Option<usize>) -> bool) -> Option<Vec<usize>> {
+    let mut seen = vec![false; pred.len()];
+    let mut path = Vec::new();
+    let mut cur = s;
+    loop {
+        if seen[cur] {
+            return None;
+        }
+        seen[cur] = true;
+        path.push(cur);
+        if f(cur, pred[cur]) {
+            return Some(path);
+        }
+        match pred[cur] {
+            Some(v) => cur = v,
+            None => return None,
+        }
+    }
+}
+
+fn check_one(o: &mut CaseOut, tree: &PredecessorTree, pred: &[Option<usize>], s: usize, name: &str, f: &dyn Fn(usize, Option<usize>) -> bool) -> bool {
+    let n = pred.len();
+    let evals = Cell::new(0usize);
+    let bound = 2 * n + 4;
+    let got = crate::ctx::catch(|| {
+        tree.search_by(s, |&v, &p| {
+            evals.set(evals.get() + 1);
+            if evals.get() > bound {
+                panic!("harness: evaluation bound exceeded");
+            }
+            f(v, p)
+        })
+    });
+    let want = reference(pred, s, f);
+    match got {
+        Err(pn) if pn.msg.contains("evaluation bound exceeded") => {
+            o.check(false, "search_by-does-not-terminate", || format!("more than {bound} predicate evaluations: pred {pred:?} s {s} predicate {name}"));
+            false
+        }
+        Err(pn) => {
+            o.check(false, "search_by-panicked", || format!("{} at {}: pred {pred:?} s {s} predicate {name}", pn.msg, pn.loc));
+            false
+        }
+        Ok(g) => {
+            o.check(g == want, "search_by", || format!("pred {pred:?} s {s} predicate {name}: got {g:?} want {want:?}"));
+            true
+        }
+    }
+}
+
+fn check_vector(o: &mut CaseOut, pred: &[Option<usize>], starts: &[usize], targets: &[usize]) {
+    let n = pred.len();
+    let tree = PredecessorTree::from(pred.to_vec());
+    for &s in starts {
+        for &t in targets {
+            if !check_one(o, &tree, pred, s, &format!("v == {t}"), &|v, _| v == t) {
+                return;
+            }
+            let a = tree.search(s, t);
+            let b = tree.search_by(s, |&v, _| v == t);
+            o.check(a == b, "search-differs-from-search_by", || format!("pred {pred:?} s {s} t {t}: {a:?} vs {b:?}"));
+        }
+        let k = n / 2;
+        if !check_one(o, &tree, pred, s, "pred.is_none()", &|_, p| p.is_none())
+            || !check_one(o, &tree, pred, s, &format!("v > {k}"), &|v, _| v > k)
+            || !check_one(o, &tree, pred, s, "never", &|_, _| false)
+            || !check_one(o, &tree, pred, s, "always", &|_, _| true)
+            || !check_one(o, &tree, pred, s, "pred == Some(v) (self-reference)", &|v, p| p == Some(v))
+        {
+            return;
+        }
+    }
+}
+
+fn has_cycle_from(pred: &[Option<usize>], s: usize) -> bool {
+    reference(pred, s, &|_, _| false).is_none() && {
+        // distinguish "chain ended" from "revisited"
+        let mut seen = vec![false; pred.len()];
+        let mut cur = s;
+        loop {
+            if seen[cur] {
+                return true;
+            }
+            seen[cur] = true;
+            match pred[cur] {
+                Some(v) => cur = v,
+                None => return false,
+            }
+        }
+    }
+}
+
+pub fn case(idx: u64, seed: u64, p: &Params, o: &mut CaseOut) {
+    let ex = count_upto(p.usize("exhaustive_len", 5));
+    let mut fp = Fp::new();
+    if idx < ex {
+        let pred = decode(idx);
+        let n = pred.len();
+        let all: Vec<usize> = (0..n).collect();
+        check_vector(o, &pred, &all, &all);
+        for x in &pred {
+            fp.us(x.map_or(0, |v| v + 1));
+        }
+        fp.us(n);
+        o.fp = fp.0;
+        o.nontrivial = (0..n).any(|s| has_cycle_from(&pred, s));
+        o.bumpn("exhaustive_len", n);
+        if o.want_desc {
+            o.desc = format!("pred {pred:?}: all starts x all targets and 5 predicates");
+        }
+        return;
+    }
+    // random long vectors: long tails, rho shapes, self-references
+    let mut r = Rng::for_case(19, seed, idx);
+    let n = r.range(7, p.usize("max_len", 300));
+    let shape = r.below(5);
+    let mut pred: Vec<Option<usize>> = vec![None; n];
+    match shape {
+        0 => {
+            for (v, pv) in pred.iter_mut().enumerate() {
+                *pv = if r.chance(0.1) { None } else { Some(r.below(n)) };
+                if r.chance(0.05) {
+                    *pv = Some(v);
+                }
+            }
+        }
+        1 => {
+            // one long chain through a random permutation, ending in None
+            let mut perm: Vec<usize> = (0..n).collect();
+            r.shuffle(&mut perm);
+            for i in 0..n - 1 {
+                pred[perm[i]] = Some(perm[i + 1]);
+            }
+        }
+        2 => {
+            // rho: a tail entering a cycle
+            let mut perm: Vec<usize> = (0..n).collect();
+            r.shuffle(&mut perm);
+            for i in 0..n - 1 {
+                pred[perm[i]] = Some(perm[i + 1]);
+            }
+            let back = r.below(n);
+            pred[perm[n - 1]] = Some(perm[back]);
+        }
+        3 => {
+            // a forest (proper predecessor tree)
+            for v in 1..n {
+                pred[v] = Some(r.below(v));
+            }
+        }
+        _ => {
+            // everything points at one self-referential vertex
+            let c = r.below(n);
+            for pv in pred.iter_mut() {
+                *pv = Some(c);
+            }
+        }
+    }
+    let starts: Vec<usize> = (0..4).map(|_| r.below(n)).collect();
+    let targets: Vec<usize> = (0..4).map(|_| r.below(n)).collect();
+    check_vector(o, &pred, &starts, &targets);
+    for x in &pred {
+        fp.us(x.map_or(0, |v| v + 1));
+    }
+    o.fp = fp.0;
+    o.nontrivial = starts.iter().any(|&s| has_cycle_from(&pred, s));
+    o.bumpn("random_shape", shape);
+    if o.want_desc {
+        o.desc = format!("random shape {shape} length {n} starts {starts:?} targets {targets:?} pred {pred:?}");
+    }
 }
